@@ -214,10 +214,70 @@ fn run_child(rep: &mut Report, kind: &str, spec: &str, shape: &str, timeout_s: u
     }
 }
 
+/// `replay --prop C01|C02 --file <witness.json>`: judge the recorded input again (in a child
+/// process, so a crash is observed and not suffered). Exit 1 = reproduced, 0 = not.
+fn replay_mode(argv: &[String]) -> ! {
+    let mut prop = String::new();
+    let mut file = String::new();
+    let mut i = 0;
+    while i + 1 < argv.len() {
+        match argv[i].as_str() {
+            "--prop" => prop = argv[i + 1].clone(),
+            "--file" => file = argv[i + 1].clone(),
+            _ => {}
+        }
+        i += 2;
+    }
+    let w: serde_json::Value = serde_json::from_str(&std::fs::read_to_string(&file).expect("witness")).expect("json");
+    let want = w["signature"].as_str().unwrap_or("").to_string();
+    let rp = &w["replay"];
+    let mut rep = Report::new(&prop, 0);
+    let tmp = std::env::temp_dir().join(format!("m_syntax-replay-{}", std::process::id()));
+    std::fs::create_dir_all(&tmp).unwrap();
+    match rp["kind"].as_str() {
+        Some("generated") => {
+            let kind = format!("--{}", rp["gen"].as_str().unwrap_or("tower"));
+            run_child(&mut rep, &kind, rp["spec"].as_str().unwrap_or(""), "replay", 120);
+        }
+        _ => {
+            let text = rp["text"].as_str().expect("witness without text").to_string();
+            if prop == "C02" {
+                let f = tmp.join("input.gleam");
+                std::fs::write(&f, &text).unwrap();
+                run_child(&mut rep, "--file", &f.display().to_string(), "replay", 120);
+            }
+            if rep.violations.is_empty() {
+                // the tree exists: run the in-process oracles on it
+                let p2 = prop.clone();
+                let t2 = text.clone();
+                let out2 = tmp.clone();
+                let r2 = panicmon::on_stack(panicmon::SERVER_STACK, move || {
+                    let mut m = Mon { prop: p2.clone(), rep: Report::new(&p2, 0), journal: Journal::open(&out2, &p2, 0), max_parse_s: 0.0, slowest: String::new() };
+                    m.case("replay", &t2);
+                    m.rep
+                });
+                rep.violations.extend(r2.violations);
+            }
+        }
+    }
+    let _ = std::fs::remove_dir_all(&tmp);
+    let hit = rep.violations.iter().any(|v| v.signature == want || want.is_empty());
+    for v in &rep.violations {
+        println!("{}: {} - {}", if v.signature == want { "reproduced" } else { "other violation" }, v.signature, truncate_str(&v.detail, 300));
+    }
+    if rep.violations.is_empty() {
+        println!("not reproduced: the recorded input is judged fine on this tree");
+    }
+    std::process::exit(if hit && !rep.violations.is_empty() { 1 } else { 0 })
+}
+
 fn main() {
     let argv: Vec<String> = std::env::args().skip(1).collect();
     if argv.first().map(|s| s == "one").unwrap_or(false) {
         one_mode(&argv[1..]);
+    }
+    if argv.first().map(|s| s == "replay").unwrap_or(false) {
+        replay_mode(&argv[1..]);
     }
     let args = Args::parse();
     assert!(args.prop == "C01" || args.prop == "C02", "m_syntax serves C01 and C02");
